@@ -390,9 +390,8 @@ theorem resolve_mono (c : DepCost) (u u' r r' : Nat) (huu : u ≤ u')
 /-- lower bound of the first charge of an opcode under a schedule (fixed cost, or the base of the dependent cost) -/
 def firstChargeBound (sch : Schedule) (mn : String) : Option Nat :=
   match opcodeCharge.lookup mn with
-  | some (.fixed f) | some (.fixedOpt f) => sch.fixed.lookup f
-  | some (.dep f _) | some (.depOpt f _) | some (.baseThenDep f) | some (.baseThenDepOpt f) =>
-    (sch.dep.lookup f).map DepCost.base
+  | some (.fixed g) | some (.fixedOpt g) => (sch.word g).toOption
+  | some (.dep g _) | some (.depOpt g _) | some (.baseThenDep g) | some (.baseThenDepOpt g) => (sch.depBase g).toOption
   | some .none => some 0
   | none => none
 
@@ -427,22 +426,201 @@ def expectedUnitArg : List (String × Nat) :=
   [("RETD", 1), ("SMO", 2), ("ALOC", 0), ("CFEI", 0), ("CFE", 0), ("MCL", 1), ("MCLI", 1), ("MCP", 2), ("MCPI", 2),
    ("MEQ", 3), ("LOGD", 3), ("ED19", 3), ("K256", 2), ("S256", 2), ("EPAR", 2)]
 
+/-- the `GasCostsValuesV7` field a getter of `impl GasCostsValues` returns -/
+def v7Field (g : String) : Option String :=
+  match gasGetters.lookup g with
+  | some (_, _, arms) =>
+    match arms[6]? with
+    | some (GetterArm.field f) => some f
+    | _ => none
+  | none => none
+
 /-- obligation on the generated charge sites (complete finite check): every opcode is priced with its own
-schedule entry (or the listed alias), dependent costs take their units from the expected operand, only ECAL
-is not charged by the VM, and the table covers exactly the opcodes of the instruction table. An opcode that
-starts charging another opcode's entry breaks this proof. -/
+schedule entry (or the listed alias) — the getter its `execute` calls returns that `GasCostsValuesV7` field —,
+dependent costs take their units from the expected operand, only ECAL is not charged by the VM, and the table
+covers exactly the opcodes of the instruction table. An opcode that starts charging another opcode's entry, or
+a getter that starts returning another field, breaks this proof. -/
 theorem charge_sites_follow_mnemonics :
     (opcodeCharge.all fun p =>
       match p.2 with
       | .none => p.1 == "ECAL"
-      | .fixed f | .fixedOpt f | .baseThenDep f | .baseThenDepOpt f => f == expectedField p.1
-      | .dep f i | .depOpt f i => f == expectedField p.1 && expectedUnitArg.lookup p.1 == some i) = true ∧
+      | .fixed g | .fixedOpt g | .baseThenDep g | .baseThenDepOpt g => v7Field g == some (expectedField p.1)
+      | .dep g i | .depOpt g i => v7Field g == some (expectedField p.1) && expectedUnitArg.lookup p.1 == some i) = true ∧
     (opcodeCharge.all (fun p => instrTable.any (·.name == p.1)) && instrTable.all (fun r => opcodeCharge.any (·.1 == r.name))
       && opcodeCharge.length == instrTable.length) = true := by
   constructor <;> decide +kernel
 
-example : (chargeList defaultSchedule "CALL" [0, 0, 0, 1000] [4280, 1]).toOption = some ([144, 20, 40], true) := by decide +kernel
+example : (chargeList defaultSchedule "CALL" [0, 0, 0, 1000] [1, 4277, 1]).toOption = some ([144, 20, 40], true) := by decide +kernel
 example : (chargeList defaultSchedule "RETD" [0, 6200] []).toOption = some ([129], true) := by decide +kernel
 example : (chargeList defaultSchedule "ADD" [1, 2, 3] []).toOption = some ([1], true) := by decide +kernel
+
+/-! ### every charge of every opcode is enumerated (only ECAL, which the VM does not charge, is inexact) -/
+
+/-- for every schedule (any version), opcode, operands and run-time sizes the plan lists all charges the VM
+makes: it is inexact exactly for the opcode whose charge site is `none` (ECAL). In particular the storage
+opcodes have no unenumerated tail. -/
+theorem plan_exact (sch : Schedule) (mn : String) (args sizes : List Nat) :
+    (chargePlan sch mn args sizes).exact = false ↔ opcodeCharge.lookup mn = some .none := by
+  unfold chargePlan
+  cases hl : opcodeCharge.lookup mn with
+  | none => simp
+  | some k =>
+    cases k with
+    | none => simp
+    | fixed g =>
+      simp only
+      split
+      · rw [storagePlan_exact, Plan.add_exact]; simp
+      · split
+        · rw [Plan.addNewEntry_exact, Plan.add_exact]; simp
+        · rw [Plan.add_exact]; simp
+    | fixedOpt g =>
+      simp only
+      split
+      · rw [storagePlan_exact, Plan.add_exact]; simp
+      · split
+        · rw [Plan.addNewEntry_exact, Plan.add_exact]; simp
+        · rw [Plan.add_exact]; simp
+    | dep g i => simp only; rw [Plan.add_exact]; simp
+    | depOpt g i => simp only; rw [Plan.add_exact]; simp
+    | baseThenDep g =>
+      simp only
+      split
+      · rw [Plan.add_exact]; simp
+      · split
+        · rw [Plan.addNewEntry_exact, Plan.baseThen_exact]; simp
+        · rw [Plan.baseThen_exact]; simp
+    | baseThenDepOpt g =>
+      simp only
+      split
+      · rw [Plan.add_exact]; simp
+      · split
+        · rw [Plan.addNewEntry_exact, Plan.baseThen_exact]; simp
+        · rw [Plan.baseThen_exact]; simp
+
+/-- the generated micro-operation table of the storage opcodes (from opcodes_impl.rs / storage.rs) is the specified
+one: SRW, SRDD, SRDI, SPLD read the slot; SWW reads then writes 32 bytes; SRWQ / SWWQ / SCWQ do so per slot of the
+range (SCWQ then clears the range); SWRD / SWRI write `$rC` / imm bytes; SUPD / SUPI read then write the updated
+value; SCLR clears. A storage opcode that drops, adds or reorders a charged access breaks this proof. -/
+theorem storage_ops_as_specified :
+    storageOpTable =
+      [("SCWQ", ⟨0, some 2, [.read], [.clear 2]⟩), ("SRW", ⟨2, none, [], [.read]⟩), ("SRWQ", ⟨2, some 3, [.read], []⟩),
+       ("SWW", ⟨0, none, [], [.read, .write (.const 32)]⟩), ("SWWQ", ⟨0, some 3, [.read, .write (.const 32)], []⟩),
+       ("SCLR", ⟨0, none, [], [.clear 1]⟩), ("SRDD", ⟨1, none, [], [.read]⟩), ("SRDI", ⟨1, none, [], [.read]⟩),
+       ("SWRD", ⟨0, none, [], [.write (.arg 2)]⟩), ("SWRI", ⟨0, none, [], [.write (.arg 2)]⟩),
+       ("SUPD", ⟨0, none, [], [.read, .write (.update 2 3)]⟩), ("SUPI", ⟨0, none, [], [.read, .write (.update 2 3)]⟩),
+       ("SPLD", ⟨1, none, [], [.read]⟩)] ∧
+    (storageReadHotGetter, storageReadColdGetter, storageWriteGetter, storageNewBytesGetter, storageClearGetter)
+      = ("storage_read_hot", "storage_read_cold", "storage_write", "new_storage_per_byte", "storage_clear") ∧
+    (newEntryGetter, balanceEntryBytes) = ("new_storage_per_byte", 40) := by
+  refine ⟨by decide +kernel, by decide +kernel, by decide +kernel⟩
+
+/-- one slot read is one charge: the hot entry if the slot is in the cache, the cold entry otherwise, over the
+byte length of the value -/
+theorem read_charge (sch : Schedule) (args : List Nat) (hot len c : Nat) (p : Plan)
+    (hp : p.stop = none) (hc : p.complete = true)
+    (h : sch.depTotal (if hot = 0 then storageReadColdGetter else storageReadHotGetter) len = .ok c) :
+    (slotStep sch args hot len p .read).charges = p.charges ++ [c] ∧
+    (slotStep sch args hot len p .read).stop = none := by
+  simp only [slotStep, Plan.add, hp, hc, h]
+  exact ⟨trivial, trivial⟩
+
+/-- one slot write of `n` bytes over a value of `len` bytes is two charges: `storage_write` over the new length,
+then `new_storage_per_byte` for exactly the bytes the value grows by — zero when it shrinks or keeps its size -/
+theorem write_charges (sch : Schedule) (args : List Nat) (hot len n w c : Nat) (l : SLen) (p : Plan)
+    (hp : p.stop = none) (hc : p.complete = true) (hl : slenEval args len l = some n)
+    (hw : sch.depTotal storageWriteGetter n = .ok w) (hb : sch.word storageNewBytesGetter = .ok c) :
+    (slotStep sch args hot len p (.write l)).charges = p.charges ++ [w, satMul c (n - len)] ∧
+    (n ≤ len → satMul c (n - len) = 0) := by
+  constructor
+  · simp only [slotStep, hl, Plan.add, hp, hc, hw, hb, List.append_assoc, List.cons_append, List.nil_append]
+  · intro hle
+    have : n - len = 0 := by omega
+    rw [this]; simp [satMul]
+
+/-- word padding: the next multiple of 8, within 7 bytes, or `none` when it does not fit a word -/
+theorem paddedLen_spec (n : Nat) :
+    (∀ p, paddedLen n = some p → p % 8 = 0 ∧ n ≤ p ∧ p < n + 8 ∧ (n % 8 = 0 → p = n)) ∧
+    (paddedLen n = none → n + 7 > wordMax) := by
+  unfold paddedLen
+  constructor
+  · intro p hp
+    split at hp
+    · cases hp; omega
+    · split at hp
+      · cases hp
+      · cases hp; omega
+  · intro hn
+    split at hn
+    · cases hn
+    · split at hn
+      · omega
+      · cases hn
+
+/-- CALL's dependent charge is over the word-PADDED code length of the callee (CSIZ / CROO: the stored length;
+CCP / BLDD: the larger of stored and requested length; LDC: by mode, the requested length padded) -/
+theorem dependent_units_spec (args : List Nat) (len e : Nat) :
+    dependentUnits "CALL" args [1, len, e] = some (paddedLen len) ∧
+    dependentUnits "CSIZ" args [1, len] = some (some len) ∧ dependentUnits "CROO" args [1, len] = some (some len) ∧
+    dependentUnits "BSIZ" args [1, len] = some (some len) ∧
+    dependentUnits "CCP" args [1, len] = some (some (max len (args.getD 3 0))) ∧
+    dependentUnits "BLDD" args [1, len] = some (some (max len (args.getD 3 0))) ∧
+    (args.getD 3 0 = 2 → args.getD 2 0 = 0 → dependentUnits "LDC" args [] = none) := by
+  refine ⟨by simp [dependentUnits, storedLen], by simp [dependentUnits, storedLen], by simp [dependentUnits, storedLen],
+    by simp [dependentUnits, storedLen], by simp [dependentUnits, storedLen], by simp [dependentUnits, storedLen], ?_⟩
+  intro h3 h2
+  have h3' : args[3]?.getD 0 = 2 := by simpa using h3
+  have h2' : args[2]?.getD 0 = 0 := by simpa using h2
+  simp [dependentUnits, h3', h2']
+
+/-! ### the other `GasCostsValues` versions -/
+
+/-- obligation on the generated getter table (complete finite check): every getter of `impl GasCostsValues` has an
+arm for each of V1 … V7; a field arm names a field of that version's struct of the getter's type; an old version's
+`Word` field is wrapped as a heavy operation only by `DependentCost` getters; `Err(GasCostNotDefined)` arms occur
+only in getters returning `Result`. -/
+theorem getters_wellformed :
+    (gasGetters.all fun g =>
+      g.2.2.2.length == 7 &&
+      (List.range 7).all fun k =>
+        match g.2.2.2[k]?, gasVersionFields[k]? with
+        | some (.field f), some fs => fs.lookup f == some g.2.1
+        | some (.heavy0 f), some fs => g.2.1 && fs.lookup f == some false
+        | some .undef, some _ => g.2.2.1
+        | _, _ => false) = true := by
+  decide +kernel
+
+/-- the getters the VM charges through: one per opcode, the storage micro-operations, the new-entry surcharge -/
+def chargedGetters : List (String × Bool) :=
+  (opcodeCharge.filterMap fun p =>
+    match p.2 with
+    | .none => none
+    | .fixed g | .fixedOpt g => some (g, false)
+    | .dep g _ | .depOpt g _ | .baseThenDep g | .baseThenDepOpt g => some (g, true)) ++
+  [(storageReadHotGetter, true), (storageReadColdGetter, true), (storageWriteGetter, true), (storageClearGetter, true),
+   (storageNewBytesGetter, false), (newEntryGetter, false)]
+
+/-- under `GasCostsValues::V7` every getter the VM charges through is defined — no instruction can fail with
+GasCostNotDefined —, and each is of the kind (`Word` / `DependentCost`) its charge site uses, in every version -/
+theorem v7_charged_getters_defined :
+    (chargedGetters.all fun g =>
+      (v7Field g.1).isSome && ((gasGetters.lookup g.1).map (·.1) == some g.2)) = true := by
+  decide +kernel
+
+/-- with the complete V7 default table every getter resolves: no plan under the default schedule stops -/
+theorem default_schedule_resolves :
+    (chargedGetters.all fun g =>
+      if g.2 then (defaultSchedule.depc g.1).toOption.isSome else (defaultSchedule.word g.1).toOption.isSome) = true := by
+  decide +kernel
+
+-- V6 has no `storage_read_*` entries: a storage read under an old schedule charges `noop` and then fails GasCostNotDefined
+example : let p := chargePlan { defaultSchedule with version := 6 } "SRW" [0, 0, 0, 0] [0, 8]
+    p.charges = [1] ∧ p.stop = some .gasCostNotDefined := by decide +kernel
+-- V1: `aloc` is a `Word`, served as `HeavyOperation { base, gas_per_unit: 0 }`
+example : (({ fixed := [("aloc", 5)], dep := [], version := 1 } : Schedule).depc "aloc").toOption = some (.heavy 5 0) := by decide +kernel
+-- storage plans: SWW on a cold unset slot = noop, cold read over 0 bytes, write over 32, 32 new bytes
+example : (chargePlan defaultSchedule "SWW" [0, 0, 0] [0, 0]).charges.length = 4 := by decide +kernel
+-- SWWQ over 2 slots of a range of 3 whose third key would pass 2^256: incomplete
+example : (chargePlan defaultSchedule "SWWQ" [0, 0, 0, 3] [0, 0, 1, 32]).complete = false := by decide +kernel
 
 end FuelVerif.Gas
